@@ -1,5 +1,6 @@
 // C03 harness: one check macro per scenario line, executed inside a TestTestingFixture test.
-// Observation: <failure count> <check count> <1 if the statement after the check executed>.
+// Observation: <failure count> <check count> <1 if the statement after the check executed>
+//   (+ <evaluations of the 1st operand expression> <of the 2nd> for the SE_ kinds: operands with side effects).
 // Scenario grammar: see checks/C03.py.  The C-language macros are expanded in harness/C03_c.c (compiled as C).
 #include "CppUTest/TestHarness.h"
 #include "CppUTest/TestTestingFixture.h"
@@ -37,6 +38,18 @@ template <class F> static void withInt(int ty, unsigned long long b, F f)
 }
 
 #define DONE after_ = 1
+
+// operand expressions with side effects: the k-th evaluation yields the k-th value of the script (the last one repeats)
+#include <vector>
+struct SeSrc {
+    std::vector<long long> v; unsigned reads;
+    long long next() { long long x = reads < v.size() ? v[reads] : v.back(); reads++; return x; }
+};
+static SeSrc seE, seA;
+template <class T> static T rdE() { return (T)seE.next(); }
+template <class T> static T rdA() { return (T)seA.next(); }
+#define SE_TYPED(STMT_TEXT, STMT) withInt(c03.ta, 0, [](auto w_) { typedef decltype(w_) T; if (c03.text) { STMT_TEXT; } else { STMT; } DONE; })
+#define SE_CMP(OP) SE_TYPED(CHECK_COMPARE_TEXT(rdE<T>(), OP, rdA<T>(), "txt"), CHECK_COMPARE(rdE<T>(), OP, rdA<T>()))
 static void unsupported() { fprintf(stderr, "C03 harness: operand type combination not instantiated\n"); exit(3); }
 // the _TEXT variants are instantiated for same-type operand pairs only, CHECK_COMPARE for the six int..unsigned long long
 // types plus same-type pairs (compile time); the generator respects this (checks/C03.py)
@@ -53,7 +66,19 @@ static void unsupported() { fprintf(stderr, "C03 harness: operand type combinati
 static void body()
 {
     const char* e = c03.e; const char* a = c03.a;
-    if (K == "CHECK_EQUAL") K2(CHECK_EQUAL);
+    if (K == "SE_CHECK_EQUAL") SE_TYPED(CHECK_EQUAL_TEXT(rdE<T>(), rdA<T>(), "txt"), CHECK_EQUAL(rdE<T>(), rdA<T>()));
+    else if (K == "SE_CHECK_EQUAL_ZERO") SE_TYPED(CHECK_EQUAL_ZERO_TEXT(rdA<T>(), "txt"), CHECK_EQUAL_ZERO(rdA<T>()));
+    else if (K == "SE_CHECK_COMPARE") {
+        switch (c03.op) {
+        case 0: SE_CMP(<); break;
+        case 1: SE_CMP(<=); break;
+        case 2: SE_CMP(>); break;
+        case 3: SE_CMP(>=); break;
+        case 4: SE_CMP(==); break;
+        default: SE_CMP(!=); break;
+        }
+    }
+    else if (K == "CHECK_EQUAL") K2(CHECK_EQUAL);
     else if (K == "LONGS_EQUAL") K2(LONGS_EQUAL);
     else if (K == "UNSIGNED_LONGS_EQUAL") K2(UNSIGNED_LONGS_EQUAL);
     else if (K == "LONGLONGS_EQUAL") K2(LONGLONGS_EQUAL);
@@ -148,8 +173,20 @@ int main()
         c03.text = t.n();
         K = t.next();
         char* pe = 0; char* pa = 0;
+        bool se = K.compare(0, 3, "SE_") == 0;
+        if (se) {
+            if (K != "SE_CHECK_EQUAL" && K != "SE_CHECK_EQUAL_ZERO" && K != "SE_CHECK_COMPARE") { fprintf(stderr, "C03 harness: unknown check %s\n", K.c_str()); return 3; }
+            if (K == "SE_CHECK_COMPARE") c03.op = t.n();
+            c03.ta = t.n();
+            seE.v.clear(); seA.v.clear(); seE.reads = seA.reads = 0;
+            if (K != "SE_CHECK_EQUAL_ZERO") { int n = t.n(); for (int i = 0; i < n; i++) seE.v.push_back(t.z()); }
+            { int n = t.n(); for (int i = 0; i < n; i++) seA.v.push_back(t.z()); }
+            if (seA.v.empty() || (K != "SE_CHECK_EQUAL_ZERO" && seE.v.empty())) { fprintf(stderr, "C03 harness: empty script\n"); return 3; }
+        }
+        else
         if (K == "CHECK_COMPARE") c03.op = t.n();
-        if (isK2(K)) { c03.ta = t.n(); c03.za = (unsigned long long)t.z(); c03.tb = t.n(); c03.zb = (unsigned long long)t.z(); }
+        if (se) { }
+        else if (isK2(K)) { c03.ta = t.n(); c03.za = (unsigned long long)t.z(); c03.tb = t.n(); c03.zb = (unsigned long long)t.z(); }
         else if (K == "CHECK" || K == "CHECK_TRUE" || K == "CHECK_FALSE" || K == "CHECK_EQUAL_ZERO" || K == "CHECK_C") { c03.ta = t.n(); c03.za = (unsigned long long)t.z(); }
         else if (K == "ENUMS_EQUAL_INT") { c03.ta = t.n(); c03.za = (unsigned long long)t.z(); c03.zb = (unsigned long long)t.z(); }
         else if (K == "ENUMS_EQUAL_TYPE") { c03.tc = t.n(); c03.ta = t.n(); c03.za = (unsigned long long)t.z(); c03.zb = (unsigned long long)t.z(); }
@@ -179,6 +216,7 @@ int main()
             fx.setTestFunction(body);
             fx.runAllTests();
             o << hx(fx.getFailureCount()) << hx(fx.getCheckCount()) << (after_ ? "1" : "0");
+            if (se) o << hx(seE.reads) << hx(seA.reads);      // evaluations of the first / second operand expression
         }
         o.flush();
         free(pe); free(pa);
